@@ -78,6 +78,10 @@ def _check_logic(task):
                 tab = Tableau(L)
                 b = tab.branch()
                 as_mapping = out['evals'] % 2 == 0
+                if out['evals'] % 3 == 0:
+                    # a longer branch: seven unrelated literals first (closure lookups go through the branch index then)
+                    for j in range(7):
+                        b.append(sdwnode(G.Atomic(1 + j % 4, 1 + j // 4), (j % 2 == 0) if mv else None, (0 if modal else None)))
                 for (which, d), w in zip(sub, wp):
                     node = sdwnode(s if which == 's' else ~s, d, w)
                     # the branch API accepts a node object or a plain mapping; exercise both
